@@ -24,7 +24,10 @@ META = {
             "normals of the two entry points identical; every per-geom distance of mju_rayGeom (plane, sphere, capsule, ellipsoid, "
             "cylinder, box) == an independent analytic computation in the harness (1e-6, grazing rays not judged). Not covered: capsule / "
             "cylinder / ellipsoid formulas in Coq (oracle only), mesh / hfield / SDF / flex rays, IEEE rounding in the kernels, zero-length rays "
-            "(mj_ray raises an error; mj_multiRay returns -1 without writing geomid).",
+            "(mj_ray raises an error; mj_multiRay returns -1 without writing geomid). History: the oracle found two defects of mj_multiRay, "
+            "repaired in /repo 9790a1925 - the per-body bounding-sphere centre was not rotated into the world frame (rotated bodies with an "
+            "off-centre BVH box were skipped) and unbounded planes were eliminated by a finite cutoff measured from their frame origin; "
+            "both minimal scenes are kept as corpus cases (CORPUS 0 / 1) and as revert mutants.",
     "note": "Trusted: Coq kernel + the standard library's classical real-number axioms (sig_forall_dec, sig_not_dec, functional "
             "extensionality) for the theorems over R; hand-written model Model/Ray.v; correspondence harness (gcc, driver c16_ray.c "
             "including engine_ray.c; PrimFloat evaluation).",
